@@ -258,7 +258,7 @@ fn attr_payload(rng: &mut Rng) -> String {
         parts.push(match rng.below(6) {
             0 => key.to_string(),
             1 => format!("{} = {}", key, lit(rng)),
-            2 => format!("{}({} = {}, {} = {})", key, ["min", "max", "message", "code"][rng.below(4)], ["1", "-2.5", "0", "18446744073709551616", "1e400"][rng.below(5)], ["message", "max"][rng.below(2)], lit(rng)),
+            2 => format!("{}({} = {}, {} = {})", key, ["min", "max", "message", "code"][rng.below(4)], ["1", "-2.5", "0", "18446744073709551616", "1e400", "NaN", "nan", "inf", "-inf", "INFINITY", "f64::NAN", "1_000", "0x10"][rng.below(13)], ["message", "max"][rng.below(2)], lit(rng)),
             3 => format!("{}{}={}", key, WS[rng.below(2)], lit(rng)),
             4 => format!("{}({})", key, lit(rng)),
             _ => format!("{} = {}", key, ["1", "true", "path::to::f", "'x'", "b\"bytes\"", "1.5e3"][rng.below(6)]),
@@ -310,7 +310,14 @@ fn exotic_item(rng: &mut Rng, k: usize) -> String {
     let ty = |rng: &mut Rng| EXOTIC_TYPES[rng.below(EXOTIC_TYPES.len())].to_string();
     let idents = ["r#type", "r#fn", "übung", "名前", "_", "__", "a1", "self_", "Ünïcode", "x"];
     let id = |rng: &mut Rng| idents[rng.below(idents.len())].to_string();
-    match [0, 1, 1, 1, 2, 2, 3, 4, 5, 6, 7, 8, 9, 9, 9][rng.below(15)] {
+    match [0, 1, 1, 1, 2, 2, 3, 4, 5, 6, 7, 8, 9, 9, 9, 10, 10][rng.below(17)] {
+        10 => {
+            // numeric validators with every spelling of a bound, on fields of number / string / list types, reachable from a command
+            let nums = ["NaN", "nan", "inf", "-inf", "1e400", "-0.0", "5", "0", "-3.5", "18446744073709551616", "1E3", "f64::MAX", "u8::MAX as f64", "007", "+2"];
+            let n = |rng: &mut Rng| nums[rng.below(nums.len())];
+            format!("#[derive(Serialize, Deserialize, Validate)]\npub struct V{} {{\n    #[validate(range(min = {}, max = {}))]\n    pub a: f64,\n    #[validate(range(max = {}, min = {}))]\n    pub b: i32,\n    #[validate(length(min = {}, max = {}))]\n    pub c: String,\n    #[validate(length(max = {}))]\n    pub d: Vec<u8>,\n}}\n#[tauri::command]\npub fn use_v{}(v: V{}) {{}}\n",
+                k, n(rng), n(rng), n(rng), n(rng), n(rng), n(rng), n(rng), k, k)
+        }
         9 => format!("{}\n#[derive(Serialize, Deserialize)]\n{}\npub struct A{} {{ {} pub {}: {}, {} f: u8 }}\n{}\n#[derive(Serialize)]\npub enum AE{} {{ {} A, {} B(u8) }}\n{}\n#[tauri::command]\n{}\nfn attr_cmd_{}({} a: A{}, b: AE{}) {{}}\n",
             odd_attr(rng), odd_attr(rng), k, odd_attr(rng), id(rng), ty(rng), odd_attr(rng), odd_attr(rng), k, odd_attr(rng), odd_attr(rng), odd_attr(rng), odd_attr(rng), k, odd_attr(rng), k, k),
         0 => format!("#[tauri::command]\npub async fn cmd_{}<'a, T: Clone + 'a, const N: usize>({}: {}, {}: {}) -> {} where T: Send {{ todo!() }}\n", k, id(rng), ty(rng), id(rng), ty(rng), ty(rng)),
@@ -349,6 +356,10 @@ fn exotic_item(rng: &mut Rng, k: usize) -> String {
         }
         4 => format!("#[tauri::command]\nfn ev_{}(app: tauri::AppHandle, w: tauri::Window) {{ app.emit({}, {}).unwrap(); w.emit_to(\"main\", \"e{}\", ({}, 1)).ok(); let f = |x: u8| app.emit(\"closure-{}\", x); loop {{ break; }} }}\n",
             k, lit(rng), ["1u8", "\"s\"", "S{x:1}", "vec![1]", "&payload", "payload.clone()", "()", "None::<u8>", "m!(1)", "async { 1 }.await"][rng.below(10)], k, lit(rng), k),
+        5 if rng.chance(1, 2) => format!("#[tauri::command({})]\npub fn argd_{}({}: {}) {{}}\n#[command({})]\nfn arge_{}() {{}}\n",
+            ["rename_all = 1", "rename_all = C", "rename_all =", "rename_all = é", "rename_all", "rename_all = \"\"", "rename_all = \"x\"", "async, rename_all = 'c'", "root = crate, rename_all = snake_case",
+             "rename_all = \"snake_case\", rename_all = 2", ",", "= 1", "rename_all(\"camelCase\")"][rng.below(13)], k, id(rng), ty(rng),
+            ["rename_all = b\"x\"", "rename_all = 1.5", "async", "rename_all = -1"][rng.below(4)], k),
         5 => format!("#[cfg_attr(test, derive(Debug))]\n#[doc = {}]\n#[tauri::command(rename_all = \"snake_case\", async)]\npub(crate) unsafe extern \"C\" fn odd_{}({}: {}) {{}}\n", lit(rng), k, id(rng), ty(rng)),
         6 => format!("pub mod inner{} {{ #[tauri::command] pub fn nested_{}(a: {}) {{}} impl X {{ #[tauri::command] fn method(&self, a: {}) {{}} }} }}\n", k, k, ty(rng), ty(rng)),
         7 => format!("#[derive(Serialize, Deserialize)]\npub struct T{}(pub {}, {});\n#[derive(Serialize)] pub struct U{};\n#[derive(Deserialize)] pub union W{} {{ a: u8, b: u16 }}\n", k, ty(rng), ty(rng), k, k),
